@@ -68,7 +68,8 @@ CellSeq(S) == SetToSortSeq(S, LAMBDA a, b : a[1] < b[1] \/ (a[1] = b[1] /\ a[2] 
 FlagTable == [fuel |-> "FUEL", shield |-> "SHIELD", plenum |-> "PLENUM", inner |-> "INNER", outer |-> "OUTER",
               test |-> "TEST", control |-> "CONTROL", reflector |-> "REFLECTOR", a |-> "A", b |-> "B",
               radial |-> "RADIAL", igniter |-> "IGNITER", feed |-> "FEED"]
-FlagsOf(words) == SortedSeq({FlagTable[w] : w \in {x \in Rng(words) : x \in DOMAIN FlagTable}})
+\* a SET of flag names (TLC cannot order strings; the harness sorts both sides)
+FlagsOf(words) == {FlagTable[w] : w \in {x \in Rng(words) : x \in DOMAIN FlagTable}}
 
 (* ============================================ components ============================================ *)
 DimsOfShape == [Circle |-> {"od", "id", "mult"}, Hexagon |-> {"op", "ip", "mult"},
